@@ -172,6 +172,121 @@ def install_eig_contract(mk, dm):
     dm._eigs = _eigs
 
 
+class _Stop(Exception):
+    pass
+
+
+_EH = [{"cls": c, "L": L, "dense": dn, "site": s}
+       for c, L, sites in (("DMRG1", 2, (0,)), ("DMRG1", 3, (0, 1)), ("DMRG2", 2, (0,)), ("DMRG2", 3, (0,)))
+       for s in sites for dn in (True, False)]
+
+
+@obligation(PROP, params=_EH, timeout_s=400)
+def effective_hamiltonian(mk, cls, L, dense, site):
+    """(1b) the local operator handed to the eigensolver - dense matrix or matrix-free linear operator -
+    is the effective Hamiltonian of the block: z^dag (A x) == <k[z] | H k> for the current block x and
+    an independent block z (complex Hermitian-free H: any transposition or conjugation slip shows)"""
+    mk.encodes(qd.DMRG.form_local_ops, qd.DMRG._update_local_state_1site, qd.DMRG._update_local_state_2site,
+               qd.parse_2site_inds_dims, qd.MovingEnvironment.move_to)
+    H = sym_mpo(mk, L, 2, "cplx")
+    k = sym_mps(mk, L, 2, "cplx")
+    dm = getattr(qtn, cls)(H, bond_dims=2, p0=k)
+    dm.opts["local_eig_ham_dense"] = dense
+    got = {}
+
+    def _eigs(A, B=None, v0=None):
+        got["A"], got["v0"] = A, v0
+        raise _Stop()
+
+    dm._eigs = _eigs
+    bsz = 2 if cls == "DMRG2" else 1
+    # position the environments like a sweep does, then update the requested block
+    dm.ME_eff_ham = qd.MovingEnvironment(dm.TN_energy, begin="left", bsz=bsz)
+    try:
+        dm._update_local_state(site, direction="right")
+    except _Stop:
+        pass
+    mk.same("the eigensolver was reached", "A" in got, True)
+    A, x = got["A"], np.asarray(got["v0"]).reshape(-1)
+    mk.same("matrix-free operator used iff requested", isinstance(A, np.ndarray), dense)
+    Ax = ref.matmul(np.asarray(A.to_dense() if not isinstance(A, np.ndarray) else A), x)
+    if not isinstance(A, np.ndarray):
+        mk.eq("matvec of the linear operator == its dense form times x", np.asarray(A.matvec(x)).reshape(-1), Ax)
+    Hd, v = dense_op(H), dense_vec(k)
+    quad = 0
+    for a, b in zip(_conj(x), Ax):
+        quad = quad + a * b
+    mk.eq("x^dag A x == <k|H k>", quad, expval(Hd, v))
+    # independent bra block z over the same labels
+    ts = [dm._k[j] for j in range(site, site + bsz)]
+    if bsz == 1:
+        uix, shape = ts[0].inds, ts[0].shape
+    else:
+        dims, _, _, _, _, _, uix, _, _ = qd.parse_2site_inds_dims(dm._k, dm._b, site)
+        shape = dims
+    z = mk.array("Z", tuple(shape), "cplx")
+    kz = qtn.TensorNetwork([t for t in dm._k.tensors if all(t is not s for s in ts)] + [qtn.Tensor(z, uix)])
+    vz = ref.tn_dense(kz, tuple(k.site_ind(i) for i in range(L))).reshape(-1)
+    Hv = ref.matmul(Hd, v)
+    want = 0
+    for a, b in zip(_conj(vz), Hv):
+        want = want + a * b
+    bil = 0
+    for a, b in zip(_conj(z.reshape(-1)), Ax):
+        bil = bil + a * b
+    mk.eq("z^dag A x == <k[z]|H k> for an independent block z", bil, want)
+
+
+@obligation(PROP, params=[{"cls": c} for c in ("DMRG1", "DMRG2")], max_paths=400)
+def solve_driver(mk, cls):
+    """(5) the solve() driver with the sweep replaced by an arbitrary energy source: sweep j runs with
+    the j-th scheduled bond cap / cutoff / direction, `energy` is the energy of the last sweep (the
+    one `state` comes from), convergence is |E_n - E_{n-1}| < tol and stops the loop"""
+    mk.encodes(qd.DMRG.solve, qd.DMRG._check_convergence, qd.DMRG._set_bond_dim_seq, qd.DMRG._set_cutoff_seq)
+    rng = np.random.default_rng(3)
+    A = rng.normal(size=(4, 4))
+    H = qtn.MatrixProductOperator.from_dense(A + A.T, dims=[2, 2])
+    bds, cuts = [2, 3, 5], [1e-6, 1e-9]
+    dm = getattr(qtn, cls)(H, bond_dims=bds, cutoffs=cuts)
+    calls = []
+    es = [mk.sreal(f"e{j}", -4, 4) for j in range(5)]
+
+    def sweep(direction, canonize=True, max_bond=None, cutoff=None, **kw):
+        calls.append((direction, canonize, max_bond, cutoff))
+        return es[len(calls) - 1]
+
+    dm.sweep = sweep
+    tol = mk.sreal("tol", 0, 1)
+    mk.assume(tol > 0)
+    conv = dm.solve(tol=tol, sweep_sequence="RRL", max_sweeps=3)
+    n = len(calls)
+    mk.same("at least two and at most max_sweeps sweeps", 2 <= n <= 3, True)
+    for j, (dr, can, mb, co) in enumerate(calls):
+        mk.same(f"sweep {j}: direction from the sequence", dr, "RRL"[j % 3])
+        mk.same(f"sweep {j}: scheduled bond cap", mb, bds[min(j, len(bds) - 1)])
+        mk.same(f"sweep {j}: scheduled cutoff", co, cuts[min(j, len(cuts) - 1)])
+        mk.same(f"sweep {j}: canonize unless the previous sweep ran the other way",
+                can, not (j > 0 and {dr, calls[j - 1][0]} == {"L", "R"}))
+    mk.same("one recorded energy per sweep", len(dm.energies), n)
+    mk.check(dm.energy == es[n - 1], "energy is the energy returned by the last sweep")
+    d_last = es[n - 1] - es[n - 2]
+    isconv = (d_last < tol) & (-d_last < tol)
+    mk.check(isconv == bool(conv), "returned flag == |E_n - E_{n-1}| < tol")
+    if n < 3:
+        mk.same("stopped early only when converged", bool(conv), True)
+    if n == 3:
+        d1 = es[1] - es[0]
+        mk.check(~((d1 < tol) & (-d1 < tol)), "did not run past a converged sweep")
+    # a second call continues the schedules
+    before = len(calls)
+    dm.solve(tol=tol, sweep_sequence="L", max_sweeps=1)
+    mk.same("second solve(): one more sweep", len(calls), before + 1)
+    j = before
+    mk.same("second solve(): schedule continues", (calls[-1][2], calls[-1][3]),
+            (bds[min(j, len(bds) - 1)], cuts[min(j, len(cuts) - 1)]))
+    mk.check(dm.energy == es[j], "energy follows the second solve()")
+
+
 _SW = [{"cls": c, "L": L, "direction": dr, "_tiers": ("quick", "thorough") if L <= 2 else ("thorough",),
         "_mandatory": L <= 2}
        for c in ("DMRG1", "DMRG2") for L in (2, 3, 4) for dr in ("R", "L")]
